@@ -562,7 +562,7 @@ func execC12(t *testing.T, w *core.World, p *run.Plan, r *run.Result) {
 				otherErr++
 			}
 			if dur > timeout && !stalled {
-				cls := "C12.S2|late|" + ftag
+				cls := "C12.S2|late"
 				if writeStall && blockedDuring(o.start, o.end) {
 					cls = "C12.S2|write-stall|late"
 				}
@@ -572,19 +572,19 @@ func execC12(t *testing.T, w *core.World, p *run.Plan, r *run.Result) {
 				w.Violate("C12.F", "C12.F|error|faultfree", fmt.Sprintf("%s failed in a fault-free run: %v", name, o.err))
 			}
 			if o.caller == 99 && judgeL1 {
-				w.Violate("C12.L1", "C12.L1|probe|"+ftag, fmt.Sprintf("after faults stopped and %v of healthy server, probe request %d failed: %v (dials=%d)", R, o.k, o.err, h.Dials))
+				w.Violate("C12.L1", "C12.L1|probe", fmt.Sprintf("after faults stopped (%s) and %v of healthy server, probe request %d failed: %v (dials=%d)", ftag, R, o.k, o.err, h.Dials))
 			}
 		}
 	}
 	if judgeL1 && p.Free {
 		if !client.IsOK() {
-			w.Violate("C12.L1", "C12.L1|status|"+ftag, fmt.Sprintf("IsOK() is false %v after the last fault (dials=%d)", w.Now()-lastFault, h.Dials))
+			w.Violate("C12.L1", "C12.L1|status", fmt.Sprintf("IsOK() is false %v after the last fault (dials=%d)", w.Now()-lastFault, h.Dials))
 		}
 	}
 	if judgeL1 && !p.Free {
 		for i, v := range client.SimView() {
 			if !v.Connected {
-				w.Violate("C12.L1", "C12.L1|status|"+ftag, fmt.Sprintf("connection %d is not Connected %v after the last fault (dials=%d)", i, w.Now()-lastFault, h.Dials))
+				w.Violate("C12.L1", "C12.L1|status", fmt.Sprintf("connection %d is not Connected %v after the last fault (faults fired: %s; dials=%d)", i, w.Now()-lastFault, ftag, h.Dials))
 			}
 		}
 	}
